@@ -319,10 +319,13 @@ def query_op(world, rng):
         return {"op": "summary"}
     if r < 0.5:
         return {"op": "depth"}
-    if r < 0.7:
+    if r < 0.6:
         return {"op": "minimal_trap_spaces"}
     nid = pick_node(world, rng)
-    return {"op": "find_node", "space": world.space_of(nid)}
+    if r < 0.8:
+        return {"op": "find_node", "space": world.space_of(nid)}
+    # percolated data of a node (answers must not depend on what is cached)
+    return {"op": rng.choice(["perc_network", "perc_nfvs", "perc_pn"]), "node": world.space_of(nid)}
 
 
 def full_op(world, rng, w=None):
